@@ -155,6 +155,37 @@ mod verif_replay {
                 assert!(!rest.iter().any(|l| l.starts_with("bestmove")), "C09: a second bestmove line after `go {lim}` on `position {pos}`: {rest:?}");
             }
         }
+        // consecutive go commands in one session: a search of A fills the cache; then every position two plies below A is
+        // searched with a budget too small to finish the first iteration -- the answer must still be a legal move of THAT position
+        for a in ["fen 8/5ppk/7p/8/2P1PQ2/8/Pr2N1KR/8 w - - 0 40", "fen 6k1/5ppp/8/8/1b6/8/r2N1PPP/4R1K1 w - - 0 1",
+                  "fen 4r1k1/5ppp/8/8/7q/8/4BPP1/4R1K1 w - - 0 1", "fen r3k2r/8/8/8/8/8/8/R3K2R w KQkq - 0 1"] {
+            e.send("ucinewgame"); e.send(&format!("position {a}")); e.send("go depth 4");
+            e.until("bestmove", 300).unwrap_or_else(|| panic!("C09: `go depth 4` on `position {a}` was not answered within 300 s"));
+            std::thread::sleep(Duration::from_millis(120));
+            let pa = ref_position(a);
+            let mut tried = 0;
+            'lines: for m1 in refrules::legal(&pa) {
+                let p1 = refrules::play(&pa, m1);
+                for m2 in refrules::legal(&p1) {
+                    let p2 = refrules::play(&p1, m2);
+                    let legal: Vec<String> = refrules::legal(&p2).iter().map(|m| m.text()).collect();
+                    if legal.is_empty() { continue; }
+                    // positions where the mover is restricted (in check, or few moves) are the interesting ones; sample the rest
+                    if legal.len() > 8 && (tried % 5 != 0) { tried += 1; continue; }
+                    tried += 1;
+                    let lim = ["nodes 1", "movetime 0", "depth 3 nodes 2", "wtime 1 btime 1"][tried % 4];
+                    e.send(&format!("position {a} moves {} {}", m1.text(), m2.text())); e.send(&format!("go {lim}"));
+                    let lines = e.until("bestmove", 60).unwrap_or_else(|| panic!("C09: `go {lim}` after `position {a} moves {} {}` was not answered", m1.text(), m2.text()));
+                    let bm = lines.last().unwrap().split_whitespace().nth(1).unwrap_or("").to_string();
+                    assert!(legal.contains(&bm), "C09: session `position {a}` / `go depth 4` / `position {a} moves {} {}` / `go {lim}` answered `{}`: not a legal move of the current position (legal: {legal:?})",
+                        m1.text(), m2.text(), lines.last().unwrap());
+                    // the search thread must be gone before the next go is accepted
+                    e.send("isready"); e.until("readyok", 30).expect("readyok");
+                    std::thread::sleep(Duration::from_millis(15));
+                    if tried > 1200 { break 'lines; }
+                }
+            }
+        }
         // the clock budget is the mover's own: time/20 + increment/2 (15 ms here) -- allow 8 s of scheduling slack
         for (pos, lim) in [("startpos moves e2e4", "wtime 300 btime 300 winc 20000 binc 0"), ("startpos", "wtime 300 btime 300 winc 0 binc 20000"),
                            ("startpos moves e2e4", "wtime 200000 btime 300"), ("startpos", "wtime 300 btime 200000")] {
